@@ -100,12 +100,14 @@ impl Scenario for History {
         match self.prop {
             "C04" => "refs-history",
             "C06" => "history",
+            "C06L" => "history-lsp",
             _ => "cache-history",
         }
     }
     fn rule(&self) -> &'static str {
         match self.prop {
             "C04" => "edit histories (4-12 full-text versions incl. syntax break/repair, removal-only, identical resend) over a generated 2-6 file workspace; after EVERY prefix all (definition, usage) pairs are checked for references <=> go-to-definition and usage_by_fixture mirroring usages; non-trivial = >= 2 steps touched the same file; distinct = (spec, ops) hash",
+            "C06L" => "the same edit histories sent as didOpen/didChange through the full LSP stack (real Backend handlers, real scan at initialize); after every notification, at quiescence, the server's index is compared with the fresh twin (maps, answers, undeclared findings of the document changed last); non-trivial = >= 2 steps touched the same file; distinct = (spec, ops) hash",
             "C06" => "edit histories over a generated workspace; after EVERY prefix the long-lived index is compared with a fresh twin built from the latest valid content of each file (maps as multisets + normalised answer snapshot; undeclared findings for the document changed last); non-trivial = >= 2 steps touched the same file; distinct = (spec, ops) hash",
             _ => "histories interleaving analyses with cache-filling queries, open/close of unmodified documents and cache pressure (2001 filler files); at each checkpoint warm answers are compared with a cold twin that received the same analyses but no queries/closes/fillers; non-trivial = a query preceded a later analysis, or a close/eviction happened; distinct = (spec, ops) hash",
         }
@@ -114,6 +116,8 @@ impl Scenario for History {
         match (self.prop, tier) {
             ("C07", Tier::Quick) => 3_000,
             ("C07", Tier::Thorough) => 100_000,
+            ("C06L", Tier::Quick) => 1_200,
+            ("C06L", Tier::Thorough) => 40_000,
             (_, Tier::Quick) => 4_000,
             (_, Tier::Thorough) => 150_000,
         }
@@ -128,7 +132,11 @@ impl Scenario for History {
             "C07" => rng.chance(700),
             _ => rng.chance(350),
         };
-        let spec = if self.prop == "C07" && rng.chance(120) { super::ws::ring_ws(&mut rng) } else { small_ws(&mut rng, imports) };
+        let spec = if self.prop == "C07" && rng.chance(160) {
+            if rng.chance(600) { super::ws::ring_ws(&mut rng) } else { super::ws::diamond_ws(&mut rng) }
+        } else {
+            small_ws(&mut rng, imports)
+        };
         let names = names_pool(4);
         let files: Vec<String> = spec.files.iter().filter(|f| f.rel.ends_with(".py") && !f.rel.ends_with("__init__.py")).map(|f| f.rel.clone()).collect();
         let mut cur: BTreeMap<String, String> = spec.files.iter().map(|f| (f.rel.clone(), render(&f.items).text)).collect();
@@ -171,7 +179,7 @@ impl Scenario for History {
                     _ => {}
                 }
             }
-            let t = next_version(&mut rng, &spec, &f, &cur[&f], &last_valid[&f], &names, self.prop);
+            let t = next_version(&mut rng, &spec, &f, &cur[&f], &last_valid[&f], &names, if self.prop == "C06L" { "C06" } else { self.prop });
             if parses(&t) {
                 last_valid.insert(f.clone(), t.clone());
             }
@@ -203,7 +211,7 @@ impl Scenario for History {
         let prop = self.prop;
         let spec = inp.spec.clone();
         let ops = inp.ops.clone();
-        let (oc, res) = simrt::run(inp.sim.cfg(replay_list(input, 0)), move || run_history(prop, &spec, &ops, &root));
+        let (oc, res) = simrt::run(inp.sim.cfg(replay_list(input, 0)), move || if prop == "C06L" { run_history_lsp(&spec, &ops, &root) } else { run_history(prop, &spec, &ops, &root) });
         out.absorb_outcome(&oc);
         out.fingerprint = fnv(&serde_json::to_string(&(&inp.spec, &inp.ops)).unwrap());
         if let Some(a) = &oc.abort {
@@ -247,6 +255,62 @@ impl HRes {
 
 fn initial_order(spec: &WsSpec) -> Vec<(String, String)> {
     spec.files.iter().filter(|f| !f.rel.ends_with("__init__.py") || !f.items.is_empty()).map(|f| (f.rel.clone(), render(&f.items).text)).collect()
+}
+
+/// C06 through the full stack: the history is sent as didOpen/didChange notifications.
+fn run_history_lsp(spec: &WsSpec, ops: &[HOp], root: &Path) -> HRes {
+    let mut res = HRes::default();
+    let _ = spec;
+    let mut srv = super::lspdrv::LspServer::start(root);
+    let id = srv.initialize();
+    if srv.await_response(id, 300).is_none() {
+        res.violate("history-server-failure", format!("no response to initialize: {:?}", srv.server_panic));
+        return res;
+    }
+    srv.notify("initialized", serde_json::json!({}));
+    srv.steps(3);
+    srv.join_scan();
+    if !srv.settle(3, 3000) || !srv.scan_complete_seen() {
+        res.violate("history-server-failure", format!("scan did not complete: {:?} {:?}", srv.server_panic, srv.log_messages));
+        return res;
+    }
+    let live = srv.db.clone();
+    let mut log: Vec<(String, String)> = vec![];
+    for p in super::dbsnap::files_in_cache(&live) {
+        if let Some(t) = live.file_cache.get(&p) {
+            log.push((rel(root, &p), t.value().as_ref().clone()));
+        }
+    }
+    let mut opened: std::collections::BTreeSet<String> = Default::default();
+    let mut touched: BTreeMap<String, usize> = BTreeMap::new();
+    let mut version = 1;
+    for (step, op) in ops.iter().enumerate() {
+        let HOp::Analyze { file, text } = op else { continue };
+        version += 1;
+        if opened.insert(file.clone()) {
+            srv.did_open(file, text, version);
+        } else {
+            srv.did_change(file, text, version);
+        }
+        if !srv.settle(3, 4000) {
+            res.violate("history-server-failure", format!("server not quiescent after step {}: {:?}", step, srv.server_panic));
+            return res;
+        }
+        log.push((file.clone(), text.clone()));
+        *touched.entry(file.clone()).or_insert(0) += 1;
+        if touched.values().any(|n| *n >= 2) {
+            res.nontrivial = true;
+        }
+        if !parses(text) {
+            res.count("probe.parse_failure_kept_old_data");
+        }
+        check_fresh_twin(&mut res, &live, &log, root, step);
+        if !res.violations.is_empty() {
+            break;
+        }
+    }
+    res.state_hash = map_snap(&live, root).hash();
+    res
 }
 
 fn run_history(prop: &str, spec: &WsSpec, ops: &[HOp], root: &Path) -> HRes {
@@ -402,8 +466,11 @@ fn check_fresh_twin(res: &mut HRes, live: &Arc<FixtureDatabase>, log: &[(String,
         }
         latest.into_iter().filter(|(_, t)| !parses(t)).map(|(f, _)| root.join(f)).collect()
     };
-    let sa = filtered_snapshot(live, root, &unparsable);
-    let sb = filtered_snapshot(&twin, root, &unparsable);
+    // per-file queries for the documents the fresh index knows (a document that never had a valid
+    // version is cached by the long-lived server only)
+    let files = super::dbsnap::files_in_cache(&twin);
+    let sa = filtered_snapshot(live, root, &unparsable, &files);
+    let sb = filtered_snapshot(&twin, root, &unparsable, &files);
     // names that currently-unparsable files provided through imports in their last valid version
     let mut dropped_imports: std::collections::BTreeSet<String> = Default::default();
     for p in &unparsable {
@@ -423,8 +490,8 @@ fn check_fresh_twin(res: &mut HRes, live: &Arc<FixtureDatabase>, log: &[(String,
     }
 }
 
-fn filtered_snapshot(db: &Arc<FixtureDatabase>, root: &Path, unparsable: &[PathBuf]) -> Snapshot {
-    let mut s = snapshot_opts(db, root, false, false);
+fn filtered_snapshot(db: &Arc<FixtureDatabase>, root: &Path, unparsable: &[PathBuf], files: &[PathBuf]) -> Snapshot {
+    let mut s = super::observe::snapshot_files(db, root, files, false, false);
     let bad: Vec<String> = unparsable.iter().map(|p| rel(root, p)).collect();
     s.entries.retain(|k, _| !(k.starts_with("goto ") && bad.iter().any(|b| k[5..].starts_with(&format!("{}:", b)))));
     // the file-content cache of the twin holds the last valid text while the live one holds the
